@@ -83,6 +83,14 @@ CLAIMED = {
             'trip for all strings. Modelled: lxml parse / serialise; the tree-level round trip, agreement with xml.etree and parse_root vs '
             'full parse are established by the correspondence on generated documents and constructor programs.',
             NOTE + 'lxml and expat are the environment.', 'DESIGN.md 5/C17'),
+    'C18': (T + ': event induction over reply trees for the SAX handler',
+            'PARTIAL. Proved over the model of the Junos SAX content handler: for every filter and every reply whose tag names do not repeat '
+            'along a path (premise Good, with a decide-checked counterexample showing it is needed) the handler writes exactly the projection '
+            'of the reply onto the filter paths; the output is independent of how expat cuts character data; without a filter nothing is '
+            'written and the DOM parser takes over. NOT modelled: expat tokenising, _delimiter_check (difflib heuristics), the SAX/DOM '
+            'hand-over - independence of the read segmentation is explored by every-cut correspondence runs on the real parser only, where '
+            'three genuine defect classes are recorded as known findings.',
+            NOTE + 'replies without mixed content; see known_findings.json for the three C18 classes.', 'DESIGN.md 5/C18, 9'),
     'C08': (T + ': grammar spec <-> _abbreviate, dict semantics',
             'Machine-checked proof that, in the model of capabilities.py, lookup of an advertised URI succeeds, shorthand lookup succeeds iff the '
             'grammar of RFC capability/base URNs says so (both URN forms), results are the right capability, parameters are exactly the '
